@@ -1,5 +1,5 @@
-(* C11 -- countByWindow = window().count(): three transformed streams after the window; the tick raises
-   while the window has not emitted (its RDD is None), which ends the callback for that interval. *)
+(* C11 -- countByWindow = window().count(): three transformed streams after the window; while the window has not
+   emitted (its RDD is None) they only advance their guard time (TransformedDStream._step returns early). *)
 From Coq Require Import ZArith NArith Bool String List Lia.
 Require Import PV.Base.Val PV.Gen.Window PV.Model.Window PV.Proofs.Window PV.Proofs.WindowSpec.
 Import ListNotations.
@@ -44,57 +44,75 @@ Proof. intros H (ns & H1 & H2). exists ns. rewrite nth_put_neq; auto. Qed.
 Lemma node_is_weaken st i T T' r : T <= T' -> node_is st i T r -> node_is st i T' r.
 Proof. intros H (ns & H1 & H2 & H3). exists ns. repeat split; auto. lia. Qed.
 
-(* the three streams of count(), stepped after the window was stepped at time t *)
+(* a transformed stream's state after its step: only the guard time moves while the window has not emitted *)
+Definition chn (R' r : rdd) (t : Z) (n : nstate) : nstate :=
+  if is_none_rdd R' then set_time t n else set_rdd r (set_time t n).
+
+Lemma chn_time R' r t n : ntime (chn R' r t n) = t.
+Proof. unfold chn. destruct (is_none_rdd R'); reflexivity. Qed.
+
+(* the three streams of count(), stepped after the window was stepped at time t: none of them raises *)
 Lemma chain_steps F t st2 R' n2 n3 n4 ns1 :
   nth_error (gnodes st2) 1 = Some ns1 -> ntime ns1 = t -> nrdd ns1 = R' ->
   nth_error (gnodes st2) 2 = Some n2 -> ntime n2 < t ->
   nth_error (gnodes st2) 3 = Some n3 -> ntime n3 < t ->
   nth_error (gnodes st2) 4 = Some n4 -> ntime n4 < t ->
+  (R' = RNone -> nrdd n2 = RNone /\ nrdd n3 = RNone) ->
   tick_nodes (S (S F)) g [2; 3; 4]%nat t st2 =
-  match R' with
-  | RNone => (put 2 (set_time t n2) st2, Some "AttributeError"%string)
-  | _ => (put 4 (set_rdd (count_rdd R') (set_time t n4))
-           (put 3 (set_rdd (count_parts R') (set_time t n3))
-             (put 2 (set_rdd (count_parts R') (set_time t n2)) st2)), None)
-  end.
+  (put 4 (chn R' (count_rdd R') t n4)
+     (put 3 (chn R' (count_parts R') t n3)
+        (put 2 (chn R' (count_parts R') t n2) st2)), None).
 Proof.
-  intros I1 I1t I1r H2 H2t H3 H3t H4 H4t.
+  intros I1 I1t I1r H2 H2t H3 H3t H4 H4t Hnone.
   cbn [tick_nodes].
-  rewrite (step_trans_go F g 2 t st2 FCountParts 1 n2 (Window w s 0) ns1 eq_refl H2 H2t eq_refl I1 ltac:(lia)).
-  rewrite I1r. unfold trans_post. cbn [apply_tfun].
   assert (Hadd : forall st0, add_log [] st0 = st0).
   { intros [nodes lg]. unfold add_log. cbn. now rewrite app_nil_r. }
-  destruct R' as [| |xs]; rewrite Hadd.
-  - reflexivity.
+  rewrite (step_trans_go F g 2 t st2 FCountParts 1 n2 (Window w s 0) ns1 eq_refl H2 H2t eq_refl I1 ltac:(lia)).
+  rewrite I1r. unfold trans_post, chn.
+  destruct R' as [| |xs]; cbn [is_none_rdd apply_tfun]; rewrite Hadd.
+  - destruct (Hnone eq_refl) as [N2 N3].
+    set (m2 := set_time t n2). set (st3 := put 2 m2 st2).
+    assert (J2 : nth_error (gnodes st3) 2 = Some m2) by (apply (nth_put_eq _ _ _ _ H2)).
+    assert (J3 : nth_error (gnodes st3) 3 = Some n3) by (unfold st3; rewrite nth_put_neq; auto).
+    rewrite (step_trans_go F g 3 t st3 FSetName 2 n3 (Trans FCountParts 1) m2 eq_refl J3 H3t eq_refl J2 ltac:(cbn; lia)).
+    unfold trans_post. replace (nrdd m2) with RNone by (symmetry; exact N2). cbn [is_none_rdd]. rewrite Hadd.
+    set (m3 := set_time t n3). set (st4 := put 3 m3 st3).
+    assert (K3 : nth_error (gnodes st4) 3 = Some m3) by (apply (nth_put_eq _ _ _ _ J3)).
+    assert (K4 : nth_error (gnodes st4) 4 = Some n4) by (unfold st4, st3; rewrite !nth_put_neq by lia; exact H4).
+    rewrite (step_trans_go F g 4 t st4 FReduceAdd 3 n4 (Trans FSetName 2) m3 eq_refl K4 H4t eq_refl K3 ltac:(cbn; lia)).
+    unfold trans_post. replace (nrdd m3) with RNone by (symmetry; exact N3). cbn [is_none_rdd]. rewrite Hadd.
+    reflexivity.
   - set (m2 := set_rdd REmpty (set_time t n2)). set (st3 := put 2 m2 st2).
     assert (J2 : nth_error (gnodes st3) 2 = Some m2) by (apply (nth_put_eq _ _ _ _ H2)).
     assert (J3 : nth_error (gnodes st3) 3 = Some n3) by (unfold st3; rewrite nth_put_neq; auto).
     rewrite (step_trans_go F g 3 t st3 FSetName 2 n3 (Trans FCountParts 1) m2 eq_refl J3 H3t eq_refl J2 ltac:(cbn; lia)).
-    unfold trans_post. cbn [apply_tfun nrdd m2 set_rdd]. rewrite Hadd.
+    unfold trans_post. cbn [apply_tfun nrdd m2 set_rdd is_none_rdd]. rewrite Hadd.
     set (m3 := set_rdd REmpty (set_time t n3)). set (st4 := put 3 m3 st3).
     assert (K3 : nth_error (gnodes st4) 3 = Some m3) by (apply (nth_put_eq _ _ _ _ J3)).
     assert (K4 : nth_error (gnodes st4) 4 = Some n4) by (unfold st4, st3; rewrite !nth_put_neq by lia; exact H4).
     rewrite (step_trans_go F g 4 t st4 FReduceAdd 3 n4 (Trans FSetName 2) m3 eq_refl K4 H4t eq_refl K3 ltac:(cbn; lia)).
-    unfold trans_post. cbn [apply_tfun nrdd m3 set_rdd]. rewrite Hadd. reflexivity.
+    unfold trans_post. cbn [apply_tfun nrdd m3 set_rdd is_none_rdd]. rewrite Hadd. reflexivity.
   - set (cnt := RData [VInt (Z.of_nat (length xs))]).
     set (m2 := set_rdd cnt (set_time t n2)). set (st3 := put 2 m2 st2).
     assert (J2 : nth_error (gnodes st3) 2 = Some m2) by (apply (nth_put_eq _ _ _ _ H2)).
     assert (J3 : nth_error (gnodes st3) 3 = Some n3) by (unfold st3; rewrite nth_put_neq; auto).
     rewrite (step_trans_go F g 3 t st3 FSetName 2 n3 (Trans FCountParts 1) m2 eq_refl J3 H3t eq_refl J2 ltac:(cbn; lia)).
-    unfold trans_post. cbn [apply_tfun nrdd m2 set_rdd cnt]. rewrite Hadd.
+    unfold trans_post. cbn [apply_tfun nrdd m2 set_rdd cnt is_none_rdd]. rewrite Hadd.
     fold cnt. set (m3 := set_rdd cnt (set_time t n3)). set (st4 := put 3 m3 st3).
     assert (K3 : nth_error (gnodes st4) 3 = Some m3) by (apply (nth_put_eq _ _ _ _ J3)).
     assert (K4 : nth_error (gnodes st4) 4 = Some n4) by (unfold st4, st3; rewrite !nth_put_neq by lia; exact H4).
     rewrite (step_trans_go F g 4 t st4 FReduceAdd 3 n4 (Trans FSetName 2) m3 eq_refl K4 H4t eq_refl K3 ltac:(cbn; lia)).
-    unfold trans_post. cbn [apply_tfun nrdd m3 set_rdd cnt all_Z].
+    unfold trans_post. cbn [apply_tfun nrdd m3 set_rdd cnt all_Z is_none_rdd].
     replace (sumZ [Z.of_nat (length xs)]) with (Z.of_nat (length xs)) by (unfold sumZ; cbn; lia).
     rewrite Hadd. reflexivity.
 Qed.
 
+Lemma count_none_rdds n : win_rdd_spec q w s (S n) = RNone ->
+  count_parts (R n) = RNone /\ count_rdd (R n) = RNone.
+Proof. intros H. rewrite (win_rdd_spec_none_prev q w s n H). split; reflexivity. Qed.
+
 Lemma kinv_tick n T t st :
-  KInv n T st -> T < t ->
-  KInv (S n) t (fst (tick g t st)) /\
-  (R (S n) = RNone -> snd (tick g t st) = Some "AttributeError"%string).
+  KInv n T st -> T < t -> KInv (S n) t (fst (tick g t st)).
 Proof.
   intros (HI & (n2 & H2 & H2t & H2r) & (n3 & H3 & H3t & H3r) & (n4 & H4 & H4t & H4r)) Ht.
   unfold tick. cbn [length seq].
@@ -104,51 +122,35 @@ Proof.
   rewrite tick_nodes_app, E. cbv beta iota.
   rewrite <- Hoth2 in H2, H3, H4 by lia.
   rewrite tick_nodes_app.
-  rewrite (chain_steps F t st2 (R (S n)) n2 n3 n4 _ I1 eq_refl eq_refl H2 ltac:(lia) H3 ltac:(lia) H4 ltac:(lia)).
-  unfold KInv.
-  destruct (R (S n)) as [| |xs] eqn:ER.
-  - cbn [fst snd]. split; [|reflexivity].
-    pose proof (win_rdd_spec_none_prev q w s n ER) as ER0. rewrite ER0 in *.
-    split; [split|repeat split].
-    + rewrite nth_put_neq by lia. exact I0.
-    + rewrite nth_put_neq by lia. exact I1.
-    + exists (set_time t n2). split; [apply (nth_put_eq _ _ _ _ H2)|]. cbn. split; [lia|exact H2r].
-    + apply node_is_put_neq; [lia|]. exists n3. repeat split; auto. lia.
-    + apply node_is_put_neq; [lia|]. exists n4. repeat split; auto. lia.
-  - split; [|discriminate].
-    set (m2 := set_rdd _ (set_time t n2)). set (m3 := set_rdd _ (set_time t n3)). set (m4 := set_rdd _ (set_time t n4)).
-    set (st5 := put 4 m4 (put 3 m3 (put 2 m2 st2))).
-    assert (L0 : nth_error (gnodes st5) 0 = Some (src_state q (S n) t)) by (unfold st5; rewrite !nth_put_neq by lia; exact I0).
-    assert (L1 : nth_error (gnodes st5) 1 = Some (win_state q w s (S n) t)) by (unfold st5; rewrite !nth_put_neq by lia; exact I1).
-    assert (L2 : nth_error (gnodes st5) 2 = Some m2).
-    { unfold st5. rewrite !nth_put_neq by lia. apply (nth_put_eq _ _ _ _ H2). }
-    assert (L3 : nth_error (gnodes st5) 3 = Some m3).
-    { unfold st5. rewrite nth_put_neq by lia. eapply nth_put_eq. rewrite nth_put_neq by lia. exact H3. }
-    assert (L4 : nth_error (gnodes st5) 4 = Some m4).
-    { unfold st5. eapply nth_put_eq. rewrite !nth_put_neq by lia. exact H4. }
-    split; [split|repeat split].
-    + apply tick_nodes_frozen; auto. cbn. lia.
-    + apply tick_nodes_frozen; auto. cbn. lia.
-    + exists m2. split; [apply tick_nodes_frozen; auto; cbn; lia|]. cbn. split; [lia|reflexivity].
-    + exists m3. split; [apply tick_nodes_frozen; auto; cbn; lia|]. cbn. split; [lia|reflexivity].
-    + exists m4. split; [apply tick_nodes_frozen; auto; cbn; lia|]. cbn. split; [lia|reflexivity].
-  - split; [|discriminate].
-    set (m2 := set_rdd _ (set_time t n2)). set (m3 := set_rdd _ (set_time t n3)). set (m4 := set_rdd _ (set_time t n4)).
-    set (st5 := put 4 m4 (put 3 m3 (put 2 m2 st2))).
-    assert (L0 : nth_error (gnodes st5) 0 = Some (src_state q (S n) t)) by (unfold st5; rewrite !nth_put_neq by lia; exact I0).
-    assert (L1 : nth_error (gnodes st5) 1 = Some (win_state q w s (S n) t)) by (unfold st5; rewrite !nth_put_neq by lia; exact I1).
-    assert (L2 : nth_error (gnodes st5) 2 = Some m2).
-    { unfold st5. rewrite !nth_put_neq by lia. apply (nth_put_eq _ _ _ _ H2). }
-    assert (L3 : nth_error (gnodes st5) 3 = Some m3).
-    { unfold st5. rewrite nth_put_neq by lia. eapply nth_put_eq. rewrite nth_put_neq by lia. exact H3. }
-    assert (L4 : nth_error (gnodes st5) 4 = Some m4).
-    { unfold st5. eapply nth_put_eq. rewrite !nth_put_neq by lia. exact H4. }
-    split; [split|repeat split].
-    + apply tick_nodes_frozen; auto. cbn. lia.
-    + apply tick_nodes_frozen; auto. cbn. lia.
-    + exists m2. split; [apply tick_nodes_frozen; auto; cbn; lia|]. cbn. split; [lia|reflexivity].
-    + exists m3. split; [apply tick_nodes_frozen; auto; cbn; lia|]. cbn. split; [lia|reflexivity].
-    + exists m4. split; [apply tick_nodes_frozen; auto; cbn; lia|]. cbn. split; [lia|reflexivity].
+  assert (Hnone : R (S n) = RNone -> nrdd n2 = RNone /\ nrdd n3 = RNone).
+  { intros HR. destruct (count_none_rdds n HR) as [P _]. rewrite H2r, H3r, P. auto. }
+  rewrite (chain_steps F t st2 (R (S n)) n2 n3 n4 _ I1 eq_refl eq_refl H2 ltac:(lia) H3 ltac:(lia) H4 ltac:(lia) Hnone).
+  set (m2 := chn _ _ t n2). set (m3 := chn _ _ t n3). set (m4 := chn _ _ t n4).
+  set (st5 := put 4 m4 (put 3 m3 (put 2 m2 st2))).
+  assert (L0 : nth_error (gnodes st5) 0 = Some (src_state q (S n) t)) by (unfold st5; rewrite !nth_put_neq by lia; exact I0).
+  assert (L1 : nth_error (gnodes st5) 1 = Some (win_state q w s (S n) t)) by (unfold st5; rewrite !nth_put_neq by lia; exact I1).
+  assert (L2 : nth_error (gnodes st5) 2 = Some m2).
+  { unfold st5. rewrite !nth_put_neq by lia. apply (nth_put_eq _ _ _ _ H2). }
+  assert (L3 : nth_error (gnodes st5) 3 = Some m3).
+  { unfold st5. rewrite nth_put_neq by lia. eapply nth_put_eq. rewrite nth_put_neq by lia. exact H3. }
+  assert (L4 : nth_error (gnodes st5) 4 = Some m4).
+  { unfold st5. eapply nth_put_eq. rewrite !nth_put_neq by lia. exact H4. }
+  assert (R2 : nrdd m2 = count_parts (R (S n))).
+  { unfold m2, chn. destruct (R (S n)) eqn:ER; cbn [is_none_rdd]; try reflexivity.
+    cbn [set_time nrdd]. destruct (count_none_rdds n ER) as [P _]. now rewrite H2r, P. }
+  assert (R3 : nrdd m3 = count_parts (R (S n))).
+  { unfold m3, chn. destruct (R (S n)) eqn:ER; cbn [is_none_rdd]; try reflexivity.
+    cbn [set_time nrdd]. destruct (count_none_rdds n ER) as [P _]. now rewrite H3r, P. }
+  assert (R4 : nrdd m4 = count_rdd (R (S n))).
+  { unfold m4, chn. destruct (R (S n)) eqn:ER; cbn [is_none_rdd]; try reflexivity.
+    cbn [set_time nrdd]. destruct (count_none_rdds n ER) as [_ P]. now rewrite H4r, P. }
+  cbv beta iota.
+  split; [split|repeat split].
+  + apply tick_nodes_frozen; auto. cbn. lia.
+  + apply tick_nodes_frozen; auto. cbn. lia.
+  + exists m2. split; [apply tick_nodes_frozen; auto; unfold m2; rewrite chn_time; lia|]. unfold m2 at 1. rewrite chn_time. split; [lia|exact R2].
+  + exists m3. split; [apply tick_nodes_frozen; auto; unfold m3; rewrite chn_time; lia|]. unfold m3 at 1. rewrite chn_time. split; [lia|exact R3].
+  + exists m4. split; [apply tick_nodes_frozen; auto; unfold m4; rewrite chn_time; lia|]. unfold m4 at 1. rewrite chn_time. split; [lia|exact R4].
 Qed.
 
 Lemma kinv_run : forall ts n T st,
@@ -170,20 +172,10 @@ Proof.
 Qed.
 End CountAnyTail.
 
-(* what k consumers of countByWindow log: nothing while the window has not emitted (the tick raises),
-   afterwards one capture each of the count stream's RDD *)
-Fixpoint count_log (R : nat -> rdd) (k : nat) (n : nat) (ts : list Z) : list logentry :=
-  match ts with
-  | [] => []
-  | t :: ts' => (if is_none_rdd (R (S n)) then []
-                 else map (fun j => (t, Z.of_nat j, obs_of (count_rdd (R (S n))))) (seq 0 k))
-                ++ count_log R k (S n) ts'
-  end.
-Fixpoint count_errors (R : nat -> rdd) (n : nat) (ts : list Z) : list (option string) :=
-  match ts with
-  | [] => []
-  | _ :: ts' => (if is_none_rdd (R (S n)) then Some "AttributeError"%string else None) :: count_errors R (S n) ts'
-  end.
+(* what k consumers of countByWindow log: nothing while the window has not emitted (their functions are not called),
+   afterwards one capture each of the count stream's RDD; no tick raises *)
+Definition count_log (R : nat -> rdd) (k : nat) (n : nat) (ts : list Z) : list logentry :=
+  cons_log (fun m => count_rdd (R m)) k n ts.
 
 Section CountProgram.
 Variables (q : list (list val)) (w s : Z) (k : nat).
@@ -206,17 +198,14 @@ Qed.
 
 Lemma ckinv_tick n T t st :
   CKInv n T st -> T < t ->
-  exists st', tick g t st =
-                (st', if is_none_rdd (R (S n)) then Some "AttributeError"%string else None) /\
-              CKInv (S n) t st' /\
-              glog st' = glog st ++ (if is_none_rdd (R (S n)) then []
+  exists st', tick g t st = (st', None) /\ CKInv (S n) t st' /\
+              glog st' = glog st ++ (if is_none_rdd (count_rdd (R (S n))) then []
                                      else map (fun j => (t, Z.of_nat j, obs_of (count_rdd (R (S n))))) (seq 0 k)).
 Proof.
   intros (HK & Hle & Hlen) Ht.
-  pose proof (kinv_tick q w s (consumers 4 k) Hs n T t st HK Ht) as [HK' _].
+  pose proof (kinv_tick q w s (consumers 4 k) Hs n T t st HK Ht) as HK'.
   pose proof (tick_nodes_times_le (length g) g t (seq 0 (length g)) st
                (times_le_weaken T t st ltac:(lia) Hle)) as Hle'.
-  pose proof (tick_nodes_length (length g) g t (seq 0 (length g)) st) as Hlen'.
   destruct HK as (HI & (n2 & H2 & H2t & H2r) & (n3 & H3 & H3t & H3r) & (n4 & H4 & H4t & H4r)).
   unfold tick in *. unfold prog_count, consumers in *. cbn [length seq] in *. rewrite consumers_from_length in *.
   change (0 :: 1 :: 2 :: 3 :: 4 :: seq 5 k)%nat with ([0; 1]%nat ++ [2; 3; 4]%nat ++ seq 5 k) in *.
@@ -225,54 +214,37 @@ Proof.
   rewrite tick_nodes_app, E in *. cbv beta iota in *.
   rewrite <- Hoth2 in H2, H3, H4 by lia.
   rewrite tick_nodes_app in *.
+  assert (Hnone : R (S n) = RNone -> nrdd n2 = RNone /\ nrdd n3 = RNone).
+  { intros HR. destruct (count_none_rdds q w s n HR) as [P _]. rewrite H2r, H3r, P. auto. }
   rewrite (chain_steps q w s (consumers_from 4 0 k) F t st2 (R (S n)) n2 n3 n4 _ I1 eq_refl eq_refl
-             H2 ltac:(lia) H3 ltac:(lia) H4 ltac:(lia)) in *.
-  destruct (R (S n)) as [| |xs] eqn:ER; cbn [is_none_rdd]; cbv beta iota in *.
-  - eexists. split; [reflexivity|]. cbn [fst] in *. split; [split; [exact HK'|split; [exact Hle'|rewrite put_length; lia]]|].
-    rewrite put_log, app_nil_r. exact Hlog2.
-  - set (m2 := set_rdd _ (set_time t n2)) in *. set (m3 := set_rdd _ (set_time t n3)) in *.
-    set (m4 := set_rdd _ (set_time t n4)) in *.
-    set (st5 := put 4 m4 (put 3 m3 (put 2 m2 st2))) in *.
-    assert (L4 : nth_error (gnodes st5) 4 = Some m4).
-    { unfold st5. eapply nth_put_eq. rewrite !nth_put_neq by lia. exact H4. }
-    destruct (consumers_steps F (Src q :: Window w s 0 :: Trans FCountParts 1 :: Trans FSetName 2
-                                  :: Trans FReduceAdd 3 :: consumers_from 4 0 k) t 4 (Trans FReduceAdd 3)
-                m4 k 5 0 st5) as (st' & E' & Hlog' & Hoth' & Hlen'').
-    + intros j Hj. cbn [Nat.add nth_error]. now apply consumers_from_nth.
-    + reflexivity.
-    + exact L4.
-    + cbn. lia.
-    + intros j Hj. assert (Hex : (5 + j < length (gnodes st))%nat) by lia.
-      apply nth_error_Some in Hex. destruct (nth_error (gnodes st) (5 + j)) as [ns|] eqn:En; [|congruence].
-      exists ns. unfold st5. rewrite !nth_put_neq by lia. rewrite Hoth2 by lia. split; auto.
-      specialize (Hle _ _ En). lia.
-    + rewrite E' in *. cbn [fst] in *. exists st'. split; [reflexivity|].
-      split; [split; [exact HK'|split; [exact Hle'|rewrite Hlen''; unfold st5; rewrite !put_length; lia]]|].
-      rewrite Hlog'. unfold st5. rewrite !put_log, Hlog2. reflexivity.
-  - set (m2 := set_rdd _ (set_time t n2)) in *. set (m3 := set_rdd _ (set_time t n3)) in *.
-    set (m4 := set_rdd _ (set_time t n4)) in *.
-    set (st5 := put 4 m4 (put 3 m3 (put 2 m2 st2))) in *.
-    assert (L4 : nth_error (gnodes st5) 4 = Some m4).
-    { unfold st5. eapply nth_put_eq. rewrite !nth_put_neq by lia. exact H4. }
-    destruct (consumers_steps F (Src q :: Window w s 0 :: Trans FCountParts 1 :: Trans FSetName 2
-                                  :: Trans FReduceAdd 3 :: consumers_from 4 0 k) t 4 (Trans FReduceAdd 3)
-                m4 k 5 0 st5) as (st' & E' & Hlog' & Hoth' & Hlen'').
-    + intros j Hj. cbn [Nat.add nth_error]. now apply consumers_from_nth.
-    + reflexivity.
-    + exact L4.
-    + cbn. lia.
-    + intros j Hj. assert (Hex : (5 + j < length (gnodes st))%nat) by lia.
-      apply nth_error_Some in Hex. destruct (nth_error (gnodes st) (5 + j)) as [ns|] eqn:En; [|congruence].
-      exists ns. unfold st5. rewrite !nth_put_neq by lia. rewrite Hoth2 by lia. split; auto.
-      specialize (Hle _ _ En). lia.
-    + rewrite E' in *. cbn [fst] in *. exists st'. split; [reflexivity|].
-      split; [split; [exact HK'|split; [exact Hle'|rewrite Hlen''; unfold st5; rewrite !put_length; lia]]|].
-      rewrite Hlog'. unfold st5. rewrite !put_log, Hlog2. reflexivity.
+             H2 ltac:(lia) H3 ltac:(lia) H4 ltac:(lia) Hnone) in *.
+  cbv beta iota in *.
+  set (m2 := chn _ _ t n2) in *. set (m3 := chn _ _ t n3) in *. set (m4 := chn _ _ t n4) in *.
+  set (st5 := put 4 m4 (put 3 m3 (put 2 m2 st2))) in *.
+  assert (L4 : nth_error (gnodes st5) 4 = Some m4).
+  { unfold st5. eapply nth_put_eq. rewrite !nth_put_neq by lia. exact H4. }
+  assert (R4 : nrdd m4 = count_rdd (R (S n))).
+  { unfold m4, chn. destruct (R (S n)) eqn:ER; cbn [is_none_rdd]; try reflexivity.
+    cbn [set_time nrdd]. destruct (count_none_rdds q w s n ER) as [_ P]. now rewrite H4r, P. }
+  destruct (consumers_steps F (Src q :: Window w s 0 :: Trans FCountParts 1 :: Trans FSetName 2
+                                :: Trans FReduceAdd 3 :: consumers_from 4 0 k) t 4 (Trans FReduceAdd 3)
+              m4 k 5 0 st5) as (st' & E' & Hlog' & Hoth' & Hlen'').
+  + intros j Hj. cbn [Nat.add nth_error]. now apply consumers_from_nth.
+  + reflexivity.
+  + exact L4.
+  + unfold m4. rewrite chn_time. lia.
+  + intros j Hj. assert (Hex : (5 + j < length (gnodes st))%nat) by lia.
+    apply nth_error_Some in Hex. destruct (nth_error (gnodes st) (5 + j)) as [ns|] eqn:En; [|congruence].
+    exists ns. unfold st5. rewrite !nth_put_neq by lia. rewrite Hoth2 by lia. split; auto.
+    specialize (Hle _ _ En). lia.
+  + rewrite E' in *. cbn [fst] in *. exists st'. split; [reflexivity|].
+    split; [split; [exact HK'|split; [exact Hle'|rewrite Hlen''; unfold st5; rewrite !put_length; lia]]|].
+    rewrite Hlog', R4. unfold st5. rewrite !put_log, Hlog2. reflexivity.
 Qed.
 
 Lemma ckinv_run : forall ts n T st,
   CKInv n T st -> increasing T ts ->
-  exists st', run_ticks g ts st = (st', count_errors R n ts) /\
+  exists st', run_ticks g ts st = (st', map (fun _ => None) ts) /\
               CKInv (n + length ts) (last ts T) st' /\
               glog st' = glog st ++ count_log R k n ts.
 Proof.
@@ -288,7 +260,7 @@ Qed.
 
 Lemma count_program_log ts :
   increasing 0 ts ->
-  run_graph g ts = (final g ts, count_errors R 0 ts) /\ glog (final g ts) = count_log R k 0 ts.
+  run_graph g ts = (final g ts, map (fun _ => None) ts) /\ glog (final g ts) = count_log R k 0 ts.
 Proof.
   intros Hinc. destruct (ckinv_run ts 0%nat 0 _ ckinv_init Hinc) as (st' & E & _ & Hlog).
   unfold final, run_graph. rewrite E. cbn [fst]. split; [reflexivity|]. exact Hlog.
@@ -362,11 +334,14 @@ Qed.
 End CountStatements.
 
 Lemma count_consumers q w s k : 0 < s -> forall ts, increasing 0 ts ->
-  run_graph (prog_count q w s k) ts = (final (prog_count q w s k) ts, count_errors (win_rdd_spec q w s) 0 ts) /\
+  run_graph (prog_count q w s k) ts = (final (prog_count q w s k) ts, map (fun _ => None) ts) /\
   glog (final (prog_count q w s k) ts) = count_log (win_rdd_spec q w s) k 0 ts.
 Proof. intros Hs ts Hinc. exact (count_program_log q w s k Hs ts Hinc). Qed.
 
-(* which ticks raise: exactly those before the first emission *)
+Lemma is_none_count_rdd r : is_none_rdd (count_rdd r) = is_none_rdd r.
+Proof. destruct r; reflexivity. Qed.
+
+(* in which intervals the consumers' functions are not called: exactly those before the first emission *)
 Lemma is_none_win_rdd_spec q w s n : 0 < s -> is_none_rdd (win_rdd_spec q w s n) = (Z.of_nat n <? s).
 Proof.
   intros Hs. destruct (Z.of_nat n <? s) eqn:E.
